@@ -194,3 +194,30 @@ def run(ck):
     lits = {literal_text(sh, x) for i in sh.walk() if sh.nodes[i]['k'] == 'CXXOperatorCallExpr' and sh.nodes[i].get('op') == '==' for x in sh.kids(i)[1:]}
     ok = any(sh.nodes[i].get('callee') == 'std::filesystem::path::filename' for i in sh.walk()) and {'.', '..'} <= lits
     ck.ob('C31.shape', 'C31.shape/hint', ok, sh.loc(), 'sanitize_filename_hint takes the filename component and rejects "." and ".."')
+
+    # ---- the recorded name has one writer: metadata["filename"] is assigned in Node::store_chunk only ------------------------------------------
+    PD = ck.prog(['src/daemon/ControlServer.cpp'])
+    elsewhere = []
+    for Pq in (PN, PD, PM):
+        for f in Pq.fns:
+            if f.q == 'ephemeralnet::Node::store_chunk' or f.q.startswith('ephemeralnet::Node::store_chunk::$'):
+                continue
+            for l, r, s in assignments(f):
+                if any(f.nodes[x]['k'] == 'StringLiteral' and f.nodes[x].get('s') == 'filename' for x in f.walk(l)) and \
+                        any(f.nodes[x]['k'] == 'MemberExpr' and (f.nodes[x].get('m') or '').endswith('Manifest::metadata') for x in f.walk(l)):
+                    elsewhere.append((f, s))
+    ck.ob('C31.own', 'C31.own/filename-metadata-single-writer', not elsewhere, elsewhere[0][0].loc(elsewhere[0][1]) if elsewhere else sc.loc(),
+          'manifest.metadata["filename"] is written only by Node::store_chunk, from its sanitised name (the control server does not put the raw '
+          'proof-of-work hint back)' + ('' if not elsewhere else ' — also written in %s' % elsewhere[0][0].name))
+
+    # ---- the only character a sanitizer ever writes into a name is the replacement '_' -------------------------------------------------------
+    for fn, tag in ((cs, 'cli'), (ns, 'node')):
+        odd = []
+        for l, r, s in assignments(fn):
+            ln = fn.nodes[fn.strip(l, casts=False)]
+            is_elem = ln['k'] in ('CXXOperatorCallExpr', 'ArraySubscriptExpr') and ln.get('op', '[]') == '[]' or ln['k'] == 'DeclRefExpr' and (ln.get('t') or '').replace('const ', '') in ('char &', 'char')
+            lit = [fn.nodes[x] for x in fn.walk(r) if fn.nodes[x]['k'] in ('CharacterLiteral', 'IntegerLiteral')]
+            if is_elem and lit and any(int(x.get('v', 95)) != 95 for x in lit):
+                odd.append(s)
+        ck.ob('C31.shape', 'C31.shape/%s/only-underscore-written' % tag, not odd, fn.loc(odd[0]) if odd else fn.loc(),
+              'the %s sanitizer writes no character other than \'_\' into the name (a substitute such as \'?\' is itself one of the reserved characters)' % tag)
